@@ -11,6 +11,7 @@
   of creating, computing, differentiating, clearing and resetting.
 -/
 import EasyMl.Lemmas.TapeWorld
+import EasyMl.Props.C04
 
 namespace EasyMl.C15
 open EasyMl EasyMl.Spec
@@ -54,6 +55,9 @@ theorem position_is_length :
   · have := sumLoop_position _ _ _ _ _ hexec
     simpa [Rec.constant] using this
 
+example : (Instr.var : Instr R).exec 3 (fun _ => 7) [] World.empty
+    = (World.empty.update 3 [⟨0, 0, 0, 0⟩], .ok ⟨7, some 3, 0⟩) := rfl
+
 /-- **Every derivative set has exactly one entry per tape entry**: whenever `derivatives()` /
     `try_derivatives()` returns (on any tape, well formed or not, for any record), the vector is as
     long as the record's tape. -/
@@ -82,6 +86,11 @@ theorem derivs_length_eq_tape_length (r : Rec R) (w : World R) :
     exact key _ hs
   · cases hd
   · cases hd
+
+example : (⟨1, some 0, 0⟩ : Rec R).derivatives ((World.empty : World R).update 0 [⟨0, 0, 0, 0⟩])
+    = .ok [1] := by
+  simp [Rec.derivatives, Rec.tryDerivatives, reverseSweep, sweepFrom, sweepEntry, accumulate,
+    World.update]
 
 /-- **After clear-then-reset the tape is a fresh tape running the same computation.**  For any
     world `w` (any history) and any records `rs` of tape `t` (live or stale, any old positions):
@@ -112,6 +121,44 @@ theorem clear_reset_equiv_fresh (w : World R) (t : Nat) (rs : List (Rec R))
 
 example : ∀ r ∈ ([⟨3, some 1, 7⟩, ⟨5, some 1, 2⟩] : List (Rec R)), r.history = some 1 := by
   intro r hr; simp at hr; rcases hr with rfl | rfl <;> rfl
+
+/-- **Derivatives requested after a clear-and-reset cycle are the true partial derivatives.**
+    After any history, clearing tape `t`, resetting the records `rs` of `t` in some order and then
+    running any program `p` (whose operand positions `0 … rs.length−1` denote the reset records)
+    is literally running the program `var, …, var, p` on the emptied tape with the records'
+    numbers as inputs — so all of C04 applies to it: no panic, plain values, and `derivatives()`
+    of every result holds at the position of every input (the reset records included) the
+    partial derivative defined by the chain rule. -/
+theorem cycle_true_derivatives (w : World R) (t : Nat) (rs : List (Rec R))
+    (hrs : ∀ r ∈ rs, r.history = some t) (p : Prog R) (env : Nat → R)
+    (henv : ∀ j (hj : j < rs.length), env j = (rs[j]).number)
+    (hp : Prog.WellScoped ((rs.map fun _ => (Instr.var : Instr R)) ++ p)) :
+    let live := resetAll rs (w.clear t)
+    let q : Prog R := (rs.map fun _ => (Instr.var : Instr R)) ++ p
+    Prog.execFrom t env p live.2 live.1 = Prog.exec t env q (w.clear t) ∧
+    ∃ w' recs, Prog.execFrom t env p live.2 live.1 = (w', .ok recs) ∧ recs.length = q.length ∧
+      ∀ k, k < q.length →
+        match (getRec recs k).history with
+        | none => (getRec recs k).derivatives w' = .panic .explicit ∧
+            ∀ i, (Prog.grad env q i).getD k 0 = 0
+        | some _ =>
+          ∃ adj, (getRec recs k).derivatives w' = .ok adj ∧ adj.length = (w' t).length ∧
+            ∀ i, q.isInput i = true →
+              adj.getD (getRec recs i).index 0 = (Prog.grad env q i).getD k 0 := by
+  intro live q
+  have hEq : Prog.execFrom t env p live.2 live.1 = Prog.exec t env q (w.clear t) := by
+    simp only [live, q, Prog.exec]
+    rw [resetAll_eq_mkVars rs t hrs, execFrom_append]
+    have := mkVars_eq_exec t env (rs.map (·.number)) (w.clear t) []
+      (by intro j hj; simp only [List.length_map] at hj; simpa using henv j hj)
+    simp only [List.map_map, Function.comp_def, List.nil_append] at this
+    rw [this]
+  refine ⟨hEq, ?_⟩
+  rw [hEq]
+  exact C04.reverse_eq_grad q hp t env (w.clear t) (by simp [World.clear]; exact Tape.WF_nil)
+
+example : Prog.WellScoped (([⟨3, some 1, 7⟩, ⟨5, some 1, 2⟩] : List (Rec R)).map
+    (fun _ => (Instr.var : Instr R)) ++ [.arith .mul 0 1, .real .sin 2]) := rfl
 
 /-- **Every binary operation between variables of two different tapes is rejected with a panic
     and appends nothing.**  For `+ − × ÷`, `pow`, `Record::binary` (as model operators and as
